@@ -534,6 +534,38 @@ def add_case(rng, shape):
     w = rng.choice(["1", "1", "-1", "2", "1/2", "0", "-3/4", "3"])
     tol = rng.choice([None, None, ["0", "0"], ["1/1024", "0"], ["0", "1/1024"]])
     c = {"op": "add", "a": a, "b": b, "w": w, "wkind": rng.choice(["int", "float"]), "tol": tol, "rel": rel}
+    r2 = rng.random()
+    if rel == "same" and r2 < 0.3:
+        # arbitrary floats (thirds, tenths, long decimals) and weights: the sum is judged with a rigorous rounding bound
+        def val(_):
+            k = rng.random()
+            if k < 0.4:
+                return enc(float(q(rng.choice(TEXT_VALUES))))
+            if k < 0.8:
+                return enc(rng.uniform(-50, 50))
+            return enc(float(F(rng.randint(-999999, 999999), 10 ** rng.randint(1, 13))))
+        for hc in (a, b):
+            hc["bins"] = map_nested(val, hc["bins"])
+            hc["kind"] = "float"
+            hc["nout"] = enc(rng.uniform(0, 5))
+        c["w"] = enc(rng.choice([1.0, -1.0, 1 / 3, 0.1, 2.5, rng.uniform(-3, 3), 1e-7, 12345.678]))
+        c["wkind"] = "float"
+        c["exact"] = False
+    elif rel == "same" and r2 < 0.36:
+        # bins that do not have the shape of the edges (deeper, ragged): md_map's own behaviour
+        which = rng.choice(["a", "b", "both"])
+        for key in ("a", "b"):
+            if which in (key, "both"):
+                hc = c[key]
+                if rng.random() < 0.5:
+                    hc["bins"] = map_nested(lambda v: [v, v], hc["bins"])
+                elif isinstance(hc["bins"][0], list) and len(hc["bins"][0]) > 1:
+                    hc["bins"][0] = hc["bins"][0][:-1]
+                else:
+                    hc["bins"] = map_nested(lambda v: [v], hc["bins"])
+        c["rel"] = "misshapen"
+    if c["w"] == "1" and tol is None and c["rel"] != "nothist" and rng.random() < 0.5:
+        c["defaults"] = True        # a.add(b): no weight, no tolerances given
     return c
 
 
@@ -568,14 +600,14 @@ def iter_case(rng, shape):
     return {"op": "iter", "h": hc, "ranges": ranges}
 
 
-MV_WIDTH = {None: 1, "double": 1, "pair": 2, "triple": 3}
+MV_WIDTH = {None: 1, "double": 1, "pair": 2, "triple": 3, "pairlist": 2}
 COORD_NAMES = ["x", "y", "z"]
 
 
 def h2g_case(rng, shape):
     hc = gen_hist(rng, shape)
     dim = len(shape)
-    mv = rng.choice([None, None, "double", "pair", "triple"])
+    mv = rng.choice([None, None, "double", "pair", "triple", "pairlist"])
     width = dim + MV_WIDTH[mv]
     mode = rng.choice(["left", "right", "middle", "left", "right", "middle", "center"])
     base = COORD_NAMES[:dim] + ["v", "error_v", "error_v_low"][:MV_WIDTH[mv]]
@@ -743,13 +775,13 @@ def h2g_el_case(rng, shape):
 def csv_flow_case(rng):
     """several histograms through ONE ToCSV element (state must not leak from one value to the next)"""
     n = rng.randint(2, 3)
-    vals = [_csv_text_case(rng) for _ in range(n)]
+    vals = []
+    while len(vals) < n:
+        v = _csv_text_case(rng)
+        if v.get("lists") or v.get("misshapen") or v.get("data"):
+            continue
+        vals.append(v)
     base = vals[0]
-    for v in vals:
-        v.pop("lists", None)
-        v.pop("data", None)
-        if isinstance(v["h"]["bins"][0], list) and len(shape_of(v["h"])) == 1:
-            v["h"]["bins"] = [b[0] for b in v["h"]["bins"]]
     return {"op": "csv_flow", "vals": vals, "sep": base["sep"], "header": base["header"], "row_end": base["row_end"],
             "last_row_end": base["last_row_end"], "dup": base["dup"]}
 
@@ -885,6 +917,103 @@ def chain_case(rng, shape=None):
     return {"op": "chain", "a": a, "b": b, "steps": steps}
 
 
+class RefGraph:
+    """reference semantics of graph.scale / graph + graph for a graph with a valid naming"""
+
+    def __init__(self, names, cols, scale):
+        self.names = tuple(names)
+        self.dim, self.owner = ref_parse_names(list(names))
+        self.cols = [[q(x) for x in c] for c in cols]
+        self.scale = scale
+        self.known = True          # False once an operation outside the stated behaviour happened
+
+    def mine(self, i):
+        return i == self.dim - 1 or (i >= self.dim and self.owner[i] == self.names[self.dim - 1])
+
+    def set_scale(self, s):
+        if self.scale is None or self.scale == 0:
+            return "LenaValueError"
+        r = s / self.scale
+        self.cols = [[v * r for v in c] if self.mine(i) else c for i, c in enumerate(self.cols)]
+        self.scale = s
+        return None
+
+    def add(self, other):
+        if len(self.names) != self.dim or other.dim != self.dim or \
+                any(len(a) != len(b) for a, b in zip(self.cols[:self.dim], other.cols[:self.dim])):
+            self.known = False     # error fields / different shapes: nothing is stated
+            return
+        self.cols = self.cols[:self.dim - 1] + [[x + y for x, y in zip(self.cols[self.dim - 1], other.cols[self.dim - 1])]]
+        self.scale = None if (self.scale is None or other.scale is None) else self.scale + other.scale
+
+
+def _ref_graph_of_src(src):
+    """the reference graph a gchain case starts from, or None if its construction is outside the statement"""
+    if "g" in src:
+        gc = src["g"]
+        names = names_tuple(gc["names"])
+        cols = gc["coords"]
+        if names is None or not cols or len(set(len(c) for c in cols)) != 1 or len(names) != len(cols) or \
+                ref_parse_names(list(names)) is None:
+            return None
+        return RefGraph(names, cols, None if gc["scale"] is None else q(gc["scale"]))
+    hg = src["h2g"]
+    names = names_tuple(hg["fields"])
+    dim = len(shape_of(hg["h"]))
+    if hg["mode"] not in ("left", "right", "middle") or names is None or len(names) != dim + MV_WIDTH[hg["mv"]] or \
+            ref_parse_names(list(names)) is None:
+        return None
+    pts = _ref_points(hg)
+    cols = [list(c) for c in zip(*pts)] if pts else [[] for _ in names]
+    sc = hg["scale"]
+    scale = None if sc is None else (ref_integral(hg["h"]) if sc is True else q(sc))
+    return RefGraph(names, cols, scale)
+
+
+def gchain_case(rng):
+    """a multi-step sequence on ONE graph object (given, or made by hist_to_graph): scale(s), scale(), + another
+    graph, rows() in random order; targets are power-of-two multiples of the current scale (exact float arithmetic)"""
+    if rng.random() < 0.35:
+        hg = h2g_case(rng, rng.choice(SHAPES[:13]))
+        if hg["mode"] not in ("left", "right", "middle"):
+            hg["mode"] = "middle"
+        hg["scale"] = rng.choice([True, True, "4", "1/2", None, "0"])
+        src = {"h2g": {k: hg[k] for k in ("h", "mv", "mode", "fields", "scale")}}
+        names = names_tuple(hg["fields"]) or ("x", "y")
+    else:
+        names = rng.choice(all_namings_cached() + [["x", "y"], ["x"], ["x", "y", "z"]] * 200)
+        g = graph_case(rng, names, kind="float")["g"]
+        g["scale"] = rng.choice([None, "0", "2", "1/2", "-4", "1", "8", "3", "5/4"])
+        src = {"g": g}
+    ref = _ref_graph_of_src(src)
+    if ref is None:
+        return gchain_case(rng)      # constructions outside the statement are the subject of the graph / h2g cases
+    g2 = None
+    if ref is not None and rng.random() < 0.5:
+        npts = len(ref.cols[0])
+        g2 = graph_case(rng, list(ref.names[:ref.dim]), npts=npts, kind="float", form="t")["g"]
+        g2["scale"] = rng.choice([None, "2", "1", "-4", "3/2"])
+    r2 = RefGraph(names_tuple(g2["names"]), g2["coords"], None if g2["scale"] is None else q(g2["scale"])) if g2 else None
+    steps = []
+    for _ in range(rng.randint(2, 6)):
+        r = rng.random()
+        if r < 0.5:
+            cur = ref.scale if ref.scale else F(1)
+            st = {"k": "scale", "s": enc(q(rng.choice(POW2)) * cur)}
+            ref.set_scale(q(st["s"]))
+        elif r < 0.65:
+            st = {"k": "get"}
+        elif r < 0.8 or g2 is None:
+            st = {"k": "rows"}
+        else:
+            st = {"k": "add"}
+            if len(ref.names) == ref.dim:
+                ref.add(r2)          # with error fields the code raises and the graph stays as it is
+        steps.append(st)
+    steps.append({"k": "rows"})
+    return {"op": "gchain", "src": src, "g2": g2, "steps": steps}
+
+
 def graph_add_case(rng):
     dim = rng.randint(1, 3)
     coords_names = COORD_NAMES[:dim]
@@ -973,7 +1102,8 @@ def scale_to_case(rng):
     else:
         target = "graph"
     return {"op": "scale_to", "group": group, "target": target, "az": rng.random() < 0.4, "au": rng.random() < 0.4,
-            "via": rng.choice(["scale_to", "GroupScale"]), "ctx": rng.random() < 0.7, "seq": rng.random() > 0.06}
+            "via": rng.choice(["scale_to", "GroupScale"]), "ctx": rng.random() < 0.7, "seq": rng.random() > 0.06,
+            "tuple": rng.random() < 0.3}
 
 
 def scale_to_call_case(rng):
@@ -1035,6 +1165,12 @@ def _csv_text_case(rng):
     if rng.random() < 0.04 and len(shape) == 1:
         c["h"]["bins"] = [[v, v] for v in c["h"]["bins"]]       # bins that are lists: LenaTypeError
         c["lists"] = True
+    elif rng.random() < 0.04 and len(shape) == 2:
+        if rng.random() < 0.5 or shape[1] == 1:
+            c["h"]["bins"] = map_nested(lambda v: [v, v], c["h"]["bins"])     # cells that are lists
+        else:
+            c["h"]["bins"][-1] = c["h"]["bins"][-1][:-1]                      # a ragged last row
+        c["misshapen"] = True
     return c
 
 
@@ -1066,6 +1202,7 @@ MIXTURE = [
     (3, csv_flow_case),
     (3, h2g_flow_case),
     (12, chain_case),
+    (8, gchain_case),
     (1, lambda rng: hscale_case(rng, zero_integral_hist(rng), True)),
     (1, lambda rng: nevents_case(rng, gen_hist(rng, _rshape(rng), pattern="zero"), True)),
 ]
@@ -1094,6 +1231,7 @@ def gen_cases(ctx):
             yield bin_index_case(rng, shape)
             yield chain_case(rng, shape)
             yield chain_case(rng, shape)
+            yield gchain_case(rng)
     # add with edges that are a proper prefix / extension of the other's: every shape x axis x both orders
     for shape in SHAPES:
         for axis in range(len(shape)):
@@ -1154,7 +1292,7 @@ def _exc(e):
 
 def _mv(name):
     return {None: None, "double": (lambda v: 2 * v), "pair": (lambda v: (v, v / 2)),
-            "triple": (lambda v: (v, v / 2, v / 4))}[name]
+            "triple": (lambda v: (v, v / 2, v / 4)), "pairlist": (lambda v: [v, v / 2])}[name]
 
 
 def _group_objs(items, with_ctx):
@@ -1258,7 +1396,10 @@ def run_impl(case):
         if case["tol"] is not None:
             kw = {"edges_rel_tol": pynum(case["tol"][0], "float"), "edges_abs_tol": pynum(case["tol"][1], "float")}
         try:
-            c = a.add(b, pynum(case["w"], case["wkind"]), **kw)
+            if case.get("defaults"):
+                c = a.add(b)
+            else:
+                c = a.add(b, pynum(case["w"], case["wkind"]), **kw)
         except Exception as ex:
             res = _exc(ex)
         else:
@@ -1342,6 +1483,40 @@ def run_impl(case):
                    "is_graph": isinstance(c, lena.structures.graph)}
         res["same"] = graph_state(a) == sa and graph_state(b) == sb
         return res
+
+    if op == "gchain":
+        src = case["src"]
+        try:
+            if "g" in src:
+                g = build_graph(src["g"])
+            else:
+                hg = src["h2g"]
+                names = hg["fields"]
+                fn = ["x", "y"] if names is None else (names["s"] if "s" in names else tuple(names["t"]))
+                sc = hg["scale"]
+                g = hf.hist_to_graph(build_hist(hg["h"]), make_value=_mv(hg["mv"]), get_coordinate=hg["mode"],
+                                     field_names=fn, scale=sc if (sc is None or sc is True) else pynum(sc, "int"))
+            g2 = None if case["g2"] is None else build_graph(case["g2"])
+        except Exception as ex:
+            return {"e": exc_name(ex), "phase": "init"}
+        obs = []
+        for st in case["steps"]:
+            k = st["k"]
+            try:
+                if k == "scale":
+                    g.scale(pynum(st["s"], "float"))
+                    obs.append({"ok": True})
+                elif k == "get":
+                    r = g.scale()
+                    obs.append({"r": None if r is None else enc(r)})
+                elif k == "rows":
+                    obs.append({"rows": [[enc(x) for x in row] for row in g.rows()]})
+                elif k == "add":
+                    g = g + g2
+                    obs.append({"ok": True})
+            except Exception as ex:
+                obs.append({"e": exc_name(ex)})
+        return {"obs": obs, "final": graph_state(g)}
 
     if op == "chain":
         env = {"a": build_hist(case["a"]), "b": build_hist(case["b"])}
@@ -1542,6 +1717,8 @@ def run_impl(case):
         objs = _group_objs(case["group"], case["ctx"])
         if case["via"] == "GroupScale" and not case.get("seq", True):
             objs_arg = iter(objs)        # not a list or tuple
+        elif case.get("tuple"):
+            objs_arg = tuple(objs)       # a tuple is a materialized group too
         else:
             objs_arg = objs
         t = case["target"]
@@ -1551,7 +1728,8 @@ def run_impl(case):
         res = {"e": None}
         try:
             if case["via"] == "scale_to":
-                ret = lena.flow.scale_to(target, objs, allow_zero_scale=case["az"], allow_unknown_scale=case["au"])
+                ret = lena.flow.scale_to(target, objs_arg if case.get("seq", True) else objs,
+                                         allow_zero_scale=case["az"], allow_unknown_scale=case["au"])
                 res["ret"] = ret is None
             else:
                 ret = lena.flow.GroupScale(target, allow_zero_scale=case["az"], allow_unknown_scale=case["au"])(objs_arg)
@@ -1657,7 +1835,7 @@ def _spec_requests(case):
         i = ref_integral(case["h"])
         if i != 0:
             return [{"op": "spec_map", "bins": case["h"]["bins"], "c": enc(q(case["other"]) / i)}]
-    if op == "add" and case["rel"] in ("same", "near"):
+    if op == "add" and case["rel"] in ("same", "near") and case.get("exact", True):
         return [{"op": "spec_zip", "a": case["a"]["bins"], "b": case["b"]["bins"], "w": case["w"]}]
     if op == "h2g" and case["mode"] in ("left", "right", "middle"):
         return [{"op": "spec_points", "h": model_hist(case["h"]), "mode": case["mode"], "mv": case["mv"]}]
@@ -1677,9 +1855,21 @@ def _spec_requests(case):
     return []
 
 
+def _mv_model(reqs):
+    """a make_value returning a list is, for the model, the same function as the one returning a tuple"""
+    for r in reqs:
+        if r.get("mv") == "pairlist":
+            r["mv"] = "pair"
+    return reqs
+
+
 def model_requests(case):
+    return _mv_model(_model_requests(case))
+
+
+def _model_requests(case):
     main = _main_requests(case)
-    if case["op"] in ("csv_flow", "h2g_flow", "chain"):
+    if case["op"] in ("csv_flow", "h2g_flow", "chain", "gchain"):
         return main
     return main + (_spec_requests(case) if main else [])
 
@@ -1699,6 +1889,12 @@ def _main_requests(case):
         return [{"op": "csv_text", "h": model_hist(case["h"]), "to_csv": case["to_csv"], "ctx_dup": case["ctx_dup"],
                  "dup": case["dup"], "sep": case["sep"], "header": case["header"], "row_end": case["row_end"],
                  "last_row_end": case["last_row_end"]}]
+    if op == "gchain":
+        src = case["src"]
+        msrc = {"g": model_graph(src["g"])} if "g" in src else \
+            {"h2g": dict(src["h2g"], h=model_hist(src["h2g"]["h"]), mv=("pair" if src["h2g"]["mv"] == "pairlist" else src["h2g"]["mv"]))}
+        return [{"op": "gchain", "src": msrc, "g2": None if case["g2"] is None else model_graph(case["g2"]),
+                 "steps": case["steps"]}]
     if op == "chain":
         steps = []
         for st in case["steps"]:
@@ -1731,7 +1927,7 @@ def _main_requests(case):
         return [{"op": "nevents", "h": model_hist(case["h"]), "n": case["n"] if case["exact"] else None,
                  "incl": case["incl"]}]
     if op == "add":
-        if case["rel"] == "nothist":
+        if case["rel"] == "nothist" or not case.get("exact", True):
             return []
         tol = case["tol"] or [enc(REL_DEFAULT), "0"]
         return [{"op": "add", "a": model_hist(case["a"]), "b": model_hist(case["b"]), "w": case["w"],
@@ -1867,7 +2063,7 @@ def _ref_points(case):
             c = [hi for lo, hi in ed]
         else:
             c = [(lo + hi) / 2 for lo, hi in ed]
-        vals = {None: [v], "double": [2 * v], "pair": [v, v / 2], "triple": [v, v / 2, v / 4]}[mv]
+        vals = {None: [v], "double": [2 * v], "pair": [v, v / 2], "triple": [v, v / 2, v / 4], "pairlist": [v, v / 2]}[mv]
         want.append([enc(x) for x in c + vals])
     return want
 
@@ -1924,10 +2120,32 @@ def _compare_main(case, res, replies):
     m = replies[0]
     if "err" in m:
         return f"model driver error: {m['err']}"
+    if m.get("e") == "unmodelled":
+        return None          # the model declines (input outside the modelled domain): no prediction
 
     def diff(what, a, b):
         return None if a == b else f"{op}: {what}: impl {jdump(a)[:300]} vs model {jdump(b)[:300]}"
 
+    if op == "gchain":
+        if "e" in res or "e" in m:
+            return diff("exception", [res.get("e"), res.get("phase")], [m.get("e"), m.get("phase")])
+
+        def nob(l):
+            out = []
+            for o in l:
+                o = dict(o)
+                if "r" in o and o["r"] is not None:
+                    o["r"] = _nq(o["r"])
+                if "rows" in o:
+                    o["rows"] = _norm_rows(o["rows"])
+                out.append(o)
+            return out
+        for k, (x, y) in enumerate(zip(nob(res["obs"]), nob(m["obs"]))):
+            if y.get("e") == "unmodelled":
+                return None
+            if x != y:
+                return f"gchain: step {k} {jdump(case['steps'][k])}: impl {jdump(x)[:300]} vs model {jdump(y)[:300]}"
+        return diff("final graph", norm_graph(res["final"]), norm_graph(m["final"]))
     if op == "chain":
         nob = lambda l: [{k: (_nq(v) if k == "r" else v) for k, v in o.items()} for o in l]
         for k, (x, y) in enumerate(zip(nob(res["obs"]), nob(m["obs"]))):
@@ -2118,6 +2336,37 @@ def oracle(case, res):
     if op == "mk_hist":
         return None      # construction is C06's subject; here only the correspondence uses it
 
+    if op == "gchain":
+        ref = _ref_graph_of_src(case["src"])
+        if ref is None:
+            return None          # the construction of the graph is outside the statement (judged by graph / h2g cases)
+        if "e" in res:
+            return f"constructing the graph raised {res}"
+        g2 = case["g2"]
+        r2 = None if g2 is None else RefGraph(names_tuple(g2["names"]), g2["coords"],
+                                              None if g2["scale"] is None else q(g2["scale"]))
+        seq = [st["k"] for st in case["steps"]]
+        for k, (st, ob) in enumerate(zip(case["steps"], res["obs"])):
+            where = f"step {k} {jdump(st)} of {seq} on graph{ref.names}"
+            if st["k"] == "scale":
+                exp = ref.set_scale(q(st["s"]))
+                if ob.get("e") != exp:
+                    return f"{where}: scale({st['s']}) gave {ob}, expected {exp or 'no exception'}"
+            elif st["k"] == "get":
+                if (ob.get("r") is None) != (ref.scale is None) or (ref.scale is not None and q(ob["r"]) != ref.scale):
+                    return f"{where}: scale() returned {ob}, expected {ref.scale}"
+            elif st["k"] == "rows":
+                want = [[enc(x) for x in row] for row in zip(*ref.cols)]
+                if "rows" not in ob or _norm_rows(ob["rows"]) != want:
+                    return f"{where}: rows {str(ob)[:300]}, expected {want}"
+            elif st["k"] == "add":
+                ref.add(r2)
+                if not ref.known:
+                    return None
+                if "e" in ob:
+                    return f"{where}: adding graphs raised {ob['e']}"
+        return None
+
     if op == "chain":
         ref = {"a": RefHist(case["a"]), "b": RefHist(case["b"])}
         for k, (st, ob) in enumerate(zip(case["steps"], res["obs"])):
@@ -2301,17 +2550,20 @@ def oracle(case, res):
         if rel in ("shape", "ext", "pre"):
             return None if res.get("e") == "LenaValueError" else \
                 f"add of histograms with {shape_of(a)} and {shape_of(b)} bins must raise LenaValueError, got {res.get('e', 'a result')}"
+        if rel == "misshapen":
+            return None          # bins without the shape of the edges: outside the statement (correspondence only)
         tol = case["tol"]
-        if rel == "far":
-            # an edge differs by 1/8; the tolerances used are at most 1/1024 (relative: of values below 32)
-            big_tol = tol is not None and (q(tol[0]) * 32 >= F(1, 8) or q(tol[1]) >= F(1, 8))
-            if not big_tol:
-                return None if res.get("e") == "LenaValueError" else \
-                    f"add of histograms with different edges must raise LenaValueError, got {res.get('e', 'a result')}"
-        if rel in ("near", "far") and "e" in res:
-            return None if res["e"] == "LenaValueError" else f"add raised {res['e']}"
+        # "histograms must have the same edges, compared approximately using math.isclose": the documented formula
+        # |x - y| <= max(rel_tol * max(|x|, |y|), abs_tol), evaluated exactly (the generated differences are a factor
+        # 1000 away from the threshold, so rounding of the float evaluation cannot change the verdict)
+        rel_tol, abs_tol = (F(REL_DEFAULT), F(0)) if tol is None else (q(tol[0]), q(tol[1]))
+        close = all(abs(q(x) - q(y)) <= max(rel_tol * max(abs(q(x)), abs(q(y))), abs_tol)
+                    for ax, ay in zip(axes_of(a), axes_of(b)) for x, y in zip(ax, ay))
+        if not close:
+            return None if res.get("e") == "LenaValueError" else \
+                f"add of histograms with different edges (tolerances {rel_tol}, {abs_tol}) must raise LenaValueError, got {res.get('e', 'a result')}"
         if "e" in res:
-            return f"add of histograms with equal edges raised {res['e']}"
+            return f"add of histograms with equal (close) edges raised {res['e']}"
         if res["alias"]:
             return "the result of add shares a list with an operand"
         if not res["is_hist"]:
@@ -2323,10 +2575,15 @@ def oracle(case, res):
         got = dict((tuple(i), v) for i, v, _ in ref_cells(dict(c, edges=a["edges"]))) if well_shaped(dict(c, edges=a["edges"])) else None
         if got is None:
             return f"bins of the sum have a wrong shape: {c['bins']}"
+        exact = case.get("exact", True)
+        # rounding of fl(a + fl(w*b)) is at most 2.01 * 2**-53 * (|a| + |w*b|); 3 * 2**-53 is a rigorous bound
+        ulp3 = F(3, 2 ** 53)
         for (i, va, _), (_, vb, _) in zip(ca, cb):
-            if got[tuple(i)] != va + w * vb:
-                return f"cell {list(i)} of a.add(b, {w}) is {got[tuple(i)]}, expected {va} + {w}*{vb}"
-        if q(c["nout"]) != q(a["nout"]) + w * q(b["nout"]):
+            want = va + w * vb
+            if (got[tuple(i)] != want) if exact else (abs(got[tuple(i)] - want) > ulp3 * (abs(va) + abs(w * vb))):
+                return f"cell {list(i)} of a.add(b, {w}) is {got[tuple(i)]}, expected {va} + {w}*{vb} = {want}"
+        want = q(a["nout"]) + w * q(b["nout"])
+        if (q(c["nout"]) != want) if exact else (abs(q(c["nout"]) - want) > ulp3 * (abs(q(a["nout"])) + abs(w * q(b["nout"])))):
             return f"n_out_of_range of the sum is {c['nout']}, expected {a['nout']} + {w}*{b['nout']}"
         return None
 
@@ -2383,7 +2640,7 @@ def oracle(case, res):
                 c = [hi for lo, hi in ed]
             else:
                 c = [(lo + hi) / 2 for lo, hi in ed]
-            vals = {None: [v], "double": [2 * v], "pair": [v, v / 2], "triple": [v, v / 2, v / 4]}[mv]
+            vals = {None: [v], "double": [2 * v], "pair": [v, v / 2], "triple": [v, v / 2, v / 4], "pairlist": [v, v / 2]}[mv]
             want.append([enc(x) for x in c + vals])
         if _norm_rows(res["rows"]) != want:
             return f"hist_to_graph({mode}) points {res['rows']}, one point per cell would be {want}"
@@ -2476,6 +2733,8 @@ def oracle(case, res):
     if op == "csv_text":
         hc = case["h"]
         dims = shape_of(hc)
+        if case.get("misshapen"):
+            return None          # bins without the shape of the edges: outside the statement (correspondence only)
         if case.get("lists") and case["to_csv"] and case.get("data") != "other":
             return None if res.get("e") == "LenaTypeError" else \
                 f"hist1d_to_csv with bins that are lists must raise LenaTypeError, got {str(res)[:200]}"
@@ -2686,7 +2945,7 @@ def nontrivial(case, res):
         return bool(g["coords"]) and len(g["coords"][0]) >= 2 and not res.get("unchanged", False)
     if op in ("csv_flow", "h2g_flow"):
         return True
-    if op == "chain":
+    if op in ("chain", "gchain"):
         return len(case["steps"]) >= 2
     if op == "scale_to":
         return len(case["group"]) >= 2
